@@ -81,7 +81,7 @@ def unit(u) -> Stats:
         chk = Shrink(n, v, tol, memo)
         chk.gaps_on = n == 3 or "gaps" in modes
         lr = LatticeRun(n, v, comp, chk, st, tag)
-        lr.fresh()
+        lr.fresh(Ks=None if n <= 4 else list(A.layered_knowledge(n, 1)) + list(A.distance2_knowledge(n, 400)))
         lr.edges_from_tables()
         if "euler" in modes:
             lr.euler()
@@ -201,6 +201,15 @@ def units(run: Run):
                 us.append(("env", 4, trip4, comp, gap_name, triples if gi % 2 else pairs, "paths4"))
     sam3 = A.a3_sam()
     us.append(("env", 3, [sam3[(13 * seed + 5) % len(sam3)], sam3[(29 * seed + 77) % len(sam3)]], "sam_apx_10", "l1_norm", (), "paths3-sam"))
+    # larger player counts: edges minimal -> minimal+S -> minimal+S+T and full-S -> full, on structurally different exact games
+    for n in ((5, 6) if quick else (5, 6, 7)):
+        for tag, gv in (A.larger_n_samples(n) if n >= 6 else [("pairgraph", A.shifted(g, A.SHIFT_LONG[:5])) for g in A.a5_pair_closure_reps()[seed % 7::7]]):
+            if quick and n == 6 and not tag.startswith(("matching-shift", "two-cliques+")):
+                continue
+            us.append((n, f"n{n}:{tag}", gv, SA if n == 5 else SA[1:], ("gaps",), 0.0))
+        for k in (1, n // 2, n - 1):
+            g = tuple(float(-min(k, A.popcount(s))) for s in range(1 << n))
+            us.append((n, f"budget{n}-{k}", g, ("sam_apx_1",), ("gaps",) if n == 5 else (), 0.0))
     width = 2 if quick else 6
     for name in gens.SA_FAMILIES:
         comps = SA + (("sam_apx_1", "sam_apx_10") if gens.is_sam_family(name) else ())
@@ -216,6 +225,8 @@ def cost(u) -> float:
     if u[0] == "env":
         return 30 if u[1] == 4 else 3
     n, comps = u[0], u[3]
+    if n >= 5:
+        return 400 * (n - 4) * len(comps)
     w = {"superadditive": 2, "superadditive_cached": 1, "sam_apx_1": 2, "sam_apx_10": 8, "sam_apx_100": 60, "sam_apx_1000": 500}
     return (1 if n == 3 else 100) * sum(w[c] for c in comps) * (10 if "euler" in u[4] and n == 4 else 1)
 
@@ -226,7 +237,7 @@ def run(run: Run) -> None:
                 "matching the computer: component-wise interval inclusion and non-increase of all four gap functions, each gap compared with its "
                 "first-principles value, >= 0, and 0 at full knowledge; edges judged on canonical tables AND traversed by real reveal/un-reveal on "
                 "one long-lived object (Euler walk); gym level: every reveal order after every reset of one long-lived env with differing hidden games. non-trivial = distinct (game, computer, edge) on which some bound actually moved")
-    run.bounds = {"n": [3, 4], "units": len(us), "sam_apx_1000": "n=3 only", "sam_apx_100": "n=3 all K; n=4 on two-valued games"}
+    run.bounds = {"n": [3, 4, 5, 6] if run.quick else [3, 4, 5, 6, 7], "units": len(us), "sam_apx_1000": "n=3 only", "sam_apx_100": "n=3 all K; n=4 on two-valued games"}
     run.assumptions = ["quick tier, n=4: the real gap functions are evaluated on every state of one third of the games (all games in the "
                        "thorough tier); interval inclusion is checked on every edge of every game",
                        "exploitability and l2 compared within 64*2^n*n*2^-53*scale; l1 and l-infinity exactly on exact inputs"]
